@@ -3,6 +3,7 @@ package main
 import (
 	"bufio"
 	"bytes"
+	"errors"
 	"fmt"
 	"io"
 	"net"
@@ -102,7 +103,7 @@ func buildStack(layers []any, h http.Handler, tick time.Duration) http.Handler {
 		case "stream":
 			cur, err = stream.New(cur)
 		case "trace":
-			cur, err = trace.New(cur, io.Discard, trace.RequestHeaders("X-Req"), trace.ResponseHeaders("X-H1"))
+			cur, err = trace.New(cur, traceSink{}, trace.RequestHeaders("X-Req"), trace.ResponseHeaders("X-H1"))
 		case "connlimit":
 			ex, _ := utils.NewExtractor("client.ip")
 			max := int64(100)
@@ -162,6 +163,19 @@ func buildStack(layers []any, h http.Handler, tick time.Duration) http.Handler {
 	return cur
 }
 
+// traceSink is where the tracer writes its records: it works, or (when the step says so) fails like a full disk or a closed
+// log pipe would - none of the tracer's business with the exchange it wraps.
+var traceSinkFails atomic.Bool
+
+type traceSink struct{}
+
+func (traceSink) Write(p []byte) (int, error) {
+	if traceSinkFails.Load() {
+		return 0, errors.New("trace sink: no space left on device")
+	}
+	return len(p), nil
+}
+
 type respView struct {
 	status int
 	hdr    http.Header
@@ -192,6 +206,7 @@ func runStack(sc Scenario, tr *Trace, seed int64) {
 	for _, st := range sc.Steps {
 		layers := list(st, "layers")
 		script := st["script"].(M)
+		traceSinkFails.Store(boolOr(st, "sinkfail", false))
 		// oracle: the bare handler on an identical server (or an identical in-memory recorder)
 		bareH := &stackHandler{script: script}
 		h := &stackHandler{script: script}
